@@ -1,4 +1,5 @@
 import Pamqp.Spec.Defs
+import Pamqp.Proofs.Envelope
 /-!
 # C20 — header peek reports the type, channel and size the decoder will use
 -/
@@ -7,19 +8,19 @@ open Pamqp
 
 /-- shorter than 7 bytes: the 'no frame yet' triple, never an exception -/
 theorem C20_short (bs : Bytes) (h : bs.length < 7) : Frame.frameParts bs = (0, 0, none) := by
-  sorry
+  exact Proofs.frameParts_short bs h
 
 /-- at least 7 bytes: type, channel, size are the big-endian unsigned readings of bytes 0, 1-2, 3-6,
 whatever follows them -/
 theorem C20_parts (hd tail : Bytes) (h : hd.length = 7) :
     Frame.frameParts (hd ++ tail) =
       (unbe (hd.take 1), unbe ((hd.drop 1).take 2), some (unbe (hd.drop 3))) := by
-  sorry
+  exact Proofs.frameParts_append hd tail h
 
 /-- unsigned ranges -/
 theorem C20_ranges (bs : Bytes) (t ch sz : Nat) (h : Frame.frameParts bs = (t, ch, some sz)) :
     t < 256 ∧ ch < 65536 ∧ sz < 2 ^ 32 := by
-  sorry
+  exact Proofs.frameParts_ranges bs t ch sz h
 
 /-- for every frame the encoder produces except the protocol header, the peek returns the frame's
 kind, its channel, and size + 8 = the frame's exact length -/
@@ -27,6 +28,6 @@ theorem C20_peek_agrees (legacy : Bool) (cat : Cat) (f : AnyFrame) (ch : PyVal) 
     (hf : Spec.isProtocolHeader f = false) (h : Frame.marshal legacy cat f ch = .ok bs) :
     ∃ c : Nat, (f = .heartbeat ∨ ch.asInt? = some (c : Int)) ∧ (f = .heartbeat → c = 0) ∧
       Frame.frameParts bs = (Spec.kindOctet f, c, some (bs.length - 8)) ∧ 8 ≤ bs.length := by
-  sorry
+  exact Proofs.frameParts_peek_agrees legacy cat f ch bs hf h
 
 end Pamqp.Props
